@@ -832,7 +832,9 @@ def parse_tag(text: str, parser: Optional[Parser]) -> Tuple[str, List[TagAttr]]:
                     quote_char = taken_n(1)  # " or '
 
                     # NOTE: Handle escaped quotes like \" or \', and continue until we reach the closing quote.
-                    value = take_until([quote_char], ignore=["\\" + quote_char])
+                    # NOTE 2: An escaped backslash (two backslashes) is skipped as a pair, so that a string
+                    # ending with one (e.g. `"C:\\"`) is not mistaken for ending with an escaped quote.
+                    value = take_until([quote_char], ignore=["\\\\", "\\" + quote_char])
 
                     if is_next_token([quote_char]):
                         add_token(quote_char)
